@@ -111,8 +111,7 @@ class RuleSet:
     def add(self, lm, hyp: Hyp):
         lc = hyp.poly.t[lm]
         self.rules.append((lm, lc, hyp))
-        for s, _ in core(lm):
-            self.by_lead.setdefault(s, []).append((lm, lc, hyp))
+        self.by_lead.setdefault(core(lm)[0][0], []).append((lm, lc, hyp))
 
     def find(self, m):
         for s, _ in m:
@@ -134,16 +133,21 @@ class RuleSet:
         done = {}
         steps = 0
         track = combo is not None
+        # Any processing order terminates (every rewrite replaces a monomial by smaller ones) and is
+        # sound; irreducible monomials are accumulated in ``done``.
         while work:
-            m = max(work, key=_rev_key) if self.reverse else max(work, key=_key)
-            c = work.pop(m)
+            m, c = work.popitem()
             hit = self.find(m)
             if hit is None:
-                done[m] = c
+                v = done.get(m, 0) + c
+                if v:
+                    done[m] = v
+                else:
+                    done.pop(m, None)
                 continue
             steps += 1
             if steps > max_steps:
-                done[m] = c
+                done[m] = done.get(m, 0) + c
                 for mm, cc in work.items():
                     done[mm] = done.get(mm, 0) + cc
                 break
@@ -253,15 +257,38 @@ STRATEGIES = ("A", "B", "C", "D")
 
 
 class Prover:
-    """Caches rule sets per hypothesis list."""
+    """Caches rule sets per strategy; hypotheses can be appended incrementally (proven lemmas)."""
 
     def __init__(self, hyps: list[Poly]):
-        self.hyps = hyps
+        self.hyps = list(hyps)
         self._built = {}
+        self._built_upto = {}
+
+    def add(self, h: Poly):
+        self.hyps.append(h)
 
     def rules(self, strategy):
         if strategy not in self._built:
             self._built[strategy] = build(self.hyps, strategy)
+            self._built_upto[strategy] = len(self.hyps)
+        elif self._built_upto[strategy] < len(self.hyps):
+            rules, subst = self._built[strategy]
+            for i in range(self._built_upto[strategy], len(self.hyps)):
+                combo = {i: {ONE: Fraction(1)}}
+                p = self.hyps[i]
+                if subst is not None and subst.rules:
+                    p = subst.reduce(p, combo)
+                p = rules.reduce(p, combo)
+                if p.is_zero():
+                    continue
+                lm = rules.lead(p)
+                cl = core(lm)
+                if not cl or any(e < 0 for _, e in cl):
+                    continue
+                if sum(1 for m in p.t if core(m) == cl) > 1:
+                    continue
+                rules.add(lm, Hyp(p, {j: Poly(d) for j, d in combo.items()}))
+            self._built_upto[strategy] = len(self.hyps)
         return self._built[strategy]
 
     def prove(self, goal: Poly):
